@@ -317,7 +317,7 @@ Proof.
   unfold rebuild, shift_of, vtype_of. destruct (find _ (pr_fleet P)) as [vt|] eqn:Hf; [|discriminate].
   destruct (nth_error (vt_shifts vt) (to_shift t)) as [sh|]; [|discriminate]. cbv zeta.
   destruct (split_tour _ (flat_tour t)) as [[[d js] e]|]; [|discriminate].
-  destruct (match_all P sh js) as [ms|]; [|discriminate]. intros H. injection H as <-. cbn [rb_vt].
+  destruct (match_all P _ js) as [ms|]; [|discriminate]. intros H. injection H as <-. cbn [rb_vt].
   apply find_some in Hf. destruct Hf as [Hin Hb]. split; [exact Hin|].
   apply andb_true_iff in Hb. destruct Hb as [Hb _]. apply andb_true_iff in Hb. destruct Hb as [Hb _].
   apply Z.eqb_eq. exact Hb.
@@ -533,7 +533,7 @@ Lemma rebuild_spec P t r : rebuild P t = Some r ->
 Proof.
   unfold rebuild. destruct (shift_of P t) as [[vt sh]|]; [|discriminate]. cbv zeta.
   destruct (split_tour _ (flat_tour t)) as [[[d js] e]|] eqn:Hsp; [|discriminate].
-  destruct (match_all P sh js) as [ms|] eqn:Hm; [|discriminate]. intros H. injection H as <-.
+  destruct (match_all P _ js) as [ms|] eqn:Hm; [|discriminate]. intros H. injection H as <-.
   unfold rb_facts. cbn [rb_dep rb_jobs rb_arr]. rewrite (match_all_fst _ _ _ _ Hm).
   destruct (split_tour_spec _ _ _ _ _ Hsp) as (H1 & H2 & H3 & H4). auto.
 Qed.
